@@ -14,5 +14,7 @@ open GorumsV.C12
 #print axioms closed_stuck_means_exited
 #print axioms closed_no_stream
 #print axioms sender_exit_leaves_no_request
+#print axioms closed_rest_owes_nothing
+#print axioms receiver_exit_leaves_nothing_lost
 #print axioms GorumsV.Tie.C09.isConnected_good
 end Audit
